@@ -6,7 +6,8 @@ LEVEL = 'model_checking'
 RULE = ('as C01, for spec/Colls.tla: bounded instance MC_Data/MC_C03 (laws: type invariant, failure atomicity, read-only, '
         'empty collection ceases to exist), one test per transition replayed on the real server, seeded random '
         'histories with duplicate-prone elements and all index forms; SUNION/SINTER/SDIFF over every sequence of up to three (thorough: four) keys drawn from a set, '
-        'a disjoint, an overlapping and a contained set, a missing key and keys of other types; every trace validated by TLC.')
+        'a disjoint, an overlapping and a contained set, a missing key and keys of other types; LREM with every count on every list over two elements up to length 4/5 '
+        '(adjacent repetitions, runs at either end); every trace validated by TLC.')
 ASSUMPTIONS = ['harness RESP reader and trace writer are correct',
                'reference semantics = Redis 6.2/7.0 documentation as encoded in spec/Colls.tla']
 
@@ -21,6 +22,7 @@ def run(ctx):
     for i in range(n_hist):
         workloads.random_history(ctx, srv, workloads.CollsGen(ctx.rnd), n=1500 if ctx.quick else 5000, label='rand%d' % i)
     ctx.extra_cov['set_algebra_cases'] = workloads.set_algebra_history(ctx, srv)
+    ctx.extra_cov['list_shape_cases'] = workloads.list_shape_history(ctx, srv)
     # integer positions written in spellings the reference refuses ('+5', '007', '-0'): open finding lenient_int
     workloads.lenient_int_history(ctx, srv, 'colls')
     ctx.extra_cov['distinct_cases'] = len(paths) + n_hist
